@@ -226,20 +226,23 @@ theorem reported_wavelength_consistent {R : Type} [Field R] [RealLike R] [FftLik
     field_simp
     linear_combination -hcons
 
-/-- **Scale invariance.** Multiplying every length (pixel scales, wavelength, focal length) by `k ≠ 0` leaves the FFT grid
-unchanged and multiplies the reported wavelength by `k`: grid, refusals and field do not depend on the length unit. -/
-theorem fft_scale_invariant {R : Type} [Field R] [RealLike R] [FftLike R]
-    (hminmul : ∀ k a b : R, FftLike.min (k * a) (k * b) = k * FftLike.min a b)
-    (k dx0 dx1 du0 du1 z wl : R) (os S0 S1 : Int) (hk : k ≠ 0) :
+/-- **Scale invariance.** Multiplying every length (pixel scales, wavelength, focal length) by `k > 0` leaves the FFT grid
+unchanged and multiplies the reported wavelength by `k`: grid, refusals and field do not depend on the length unit.
+`hmin` only says that the class operation `FftLike.min` (`np.min`) is the order's `min` (`rfl` at ℝ and ℚ); the law
+`min (k a) (k b) = k min a b` is proved from `0 < k`. Instantiated without hypotheses at ℝ in `fft_scale_invariant_real`. -/
+theorem fft_scale_invariant {R : Type} [Field R] [LinearOrder R] [IsStrictOrderedRing R] [RealLike R] [FftLike R]
+    (hmin : ∀ a b : R, FftLike.min a b = min a b)
+    (k dx0 dx1 du0 du1 z wl : R) (os S0 S1 : Int) (hk : 0 < k) :
     fftShape (k * dx0) (k * dx1) (k * du0) (k * du1) (k * z) (k * wl) os = fftShape dx0 dx1 du0 du1 z wl os ∧
     propWavelength S0 S1 (k * dx0) (k * dx1) (k * du0) (k * du1) (k * z) (k * wl) os = k * propWavelength S0 S1 dx0 dx1 du0 du1 z wl os := by
+  have hk0 : k ≠ 0 := ne_of_gt hk
   constructor
   · simp only [fftShape, Gen.fftShapeAlpha, Gen.fftAlphaCall, Gen.dftAlpha]
     have e0 : k * dx0 * (k * du0) / (k * z * (k * wl) * RealLike.ofInt os) = dx0 * du0 / (z * wl * RealLike.ofInt os) := by field_simp
     have e1 : k * dx1 * (k * du1) / (k * z * (k * wl) * RealLike.ofInt os) = dx1 * du1 / (z * wl * RealLike.ofInt os) := by field_simp
     rw [e0, e1]
-  · simp only [propWavelength, Gen.fftReportedWavelengths, Gen.fftWavelengths]
-    rw [← hminmul]
+  · simp only [propWavelength, Gen.fftReportedWavelengths, Gen.fftWavelengths, hmin]
+    rw [mul_min_of_nonneg _ _ hk.le]
     congr 1 <;> field_simp
 
 /-- **Metadata of the result** (generated hand-over `Gen.fftOutMeta`, `Gen.fftFieldPixelscale`): the output carries the reported
@@ -257,7 +260,8 @@ theorem scratch_shape_is_fft_shape {R : Type} [Field R] [RealLike R] [FftLike R]
     scratchShape maxWl dx0 dx1 du0 du1 z os = fftShape dx0 dx1 du0 du1 z maxWl os := rfl
 
 /-- **A buffer advertised for a list of wavelengths suffices for each of them**: the grid grows with the wavelength
-(`hmono`: the rounding is monotone — true of round-half-even), so the grid at `np.max(wavelength)` dominates the grid at
+(`hmono`: the rounding is monotone — proved for the real round-half-even in `roundEven_real_mono`; `scratch_shape_monotone_real` has no
+such hypothesis), so the grid at `np.max(wavelength)` dominates the grid at
 every smaller wavelength, per axis (positive pixel scales, focal length, oversampling). -/
 theorem scratch_shape_monotone {R : Type} [Field R] [LinearOrder R] [IsStrictOrderedRing R] [RealLike R] [FftLike R]
     (hcast : ∀ n : Int, (RealLike.ofInt n : R) = (n : R))
@@ -278,20 +282,20 @@ theorem scratch_shape_monotone {R : Type} [Field R] [LinearOrder R] [IsStrictOrd
     apply div_le_div_of_nonneg_right _ (le_of_lt (mul_pos h1 h3))
     exact mul_le_mul_of_nonneg_right (mul_le_mul_of_nonneg_left hwl hz.le) hosR.le
 
-/-- **The whole outcome is scale covariant.** Multiplying every length by `k ≠ 0` changes nothing but the reported wavelength,
+/-- **The whole outcome is scale covariant.** Multiplying every length by `k > 0` changes nothing but the reported wavelength,
 which is multiplied by `k`: same refusal or acceptance, same grid, same output shape, same field. -/
-theorem propagateFft_scale_covariant {K R : Type} [Field R] [RealLike R] [FftLike R] [Add K] [Mul K] [Zero K] [CxLike K R]
-    (hminmul : ∀ k a b : R, FftLike.min (k * a) (k * b) = k * FftLike.min a b)
+theorem propagateFft_scale_covariant {K R : Type} [Field R] [LinearOrder R] [IsStrictOrderedRing R] [RealLike R] [FftLike R] [Add K] [Mul K] [Zero K] [CxLike K R]
+    (hmin : ∀ a b : R, FftLike.min a b = min a b)
     (one : K) (fs : List (Fld K)) (ht : Bool) (W0 W1 : Int) (k dx0 dx1 du0 du1 wl z : R) (os : Int)
-    (shape : Option (Int × Int)) (scratch : Option (Arr K)) (hk : k ≠ 0) :
+    (shape : Option (Int × Int)) (scratch : Option (Arr K)) (hk : 0 < k) :
     (∀ lam S0 S1 so g, propagateFft one fs ht W0 W1 dx0 dx1 du0 du1 wl z os shape scratch = FftOut.ok lam S0 S1 so g →
       propagateFft one fs ht W0 W1 (k * dx0) (k * dx1) (k * du0) (k * du1) (k * wl) (k * z) os shape scratch = FftOut.ok (k * lam) S0 S1 so g) ∧
     (propagateFft one fs ht W0 W1 dx0 dx1 du0 du1 wl z os shape scratch = FftOut.valueError →
       propagateFft one fs ht W0 W1 (k * dx0) (k * dx1) (k * du0) (k * du1) (k * wl) (k * z) os shape scratch = FftOut.valueError) ∧
     (propagateFft one fs ht W0 W1 dx0 dx1 du0 du1 wl z os shape scratch = FftOut.notImplemented →
       propagateFft one fs ht W0 W1 (k * dx0) (k * dx1) (k * du0) (k * du1) (k * wl) (k * z) os shape scratch = FftOut.notImplemented) := by
-  have hS := (fft_scale_invariant hminmul k dx0 dx1 du0 du1 z wl os 0 0 hk).1
-  have hW := fun S0 S1 => (fft_scale_invariant hminmul k dx0 dx1 du0 du1 z wl os S0 S1 hk).2
+  have hS := (fft_scale_invariant hmin k dx0 dx1 du0 du1 z wl os 0 0 hk).1
+  have hW := fun S0 S1 => (fft_scale_invariant hmin k dx0 dx1 du0 du1 z wl os S0 S1 hk).2
   unfold propagateFft
   cases ht with
   | true => simp
@@ -462,18 +466,57 @@ theorem fft_eq_propagate_dft (fs : List (Fld ℂ)) (W0 W1 : Int) (dx0 dx1 du0 du
   unfold fraunhoferAt
   apply dft2_get_congr <;> (simp only [cc, RealLike.ofInt]; push_cast; ring)
 
-/-- non-vacuity of `fft_eq_propagate_dft`: a 2x2 field on a 4x4 grid (`dx = du = 1/2`, `z = lambda = 1`, `os = 1`) is accepted -/
-theorem fftShape_example : fftShape (1/2 : ℝ) (1/2) (1/2) (1/2) 1 1 1 = (4, 4) := by
-  have h4 : ((RealLike.ofInt 1 : ℝ) / ((1/2 : ℝ) * (1/2) / (1 * 1 * RealLike.ofInt 1))) = 4 := by
-    simp only [RealLike.ofInt]; norm_num
-  simp only [fftShape, Gen.fftShapeAlpha, Gen.fftAlphaCall, Gen.dftAlpha, h4, FftLike.roundEven]
-  norm_num
+/-- **Scale covariance at ℝ, no hypothesis but `0 < k`** (instances of `fft_scale_invariant`, `propagateFft_scale_covariant`). -/
+theorem fft_scale_invariant_real (k dx0 dx1 du0 du1 z wl : ℝ) (os S0 S1 : Int) (hk : 0 < k) :
+    fftShape (k * dx0) (k * dx1) (k * du0) (k * du1) (k * z) (k * wl) os = fftShape dx0 dx1 du0 du1 z wl os ∧
+    propWavelength S0 S1 (k * dx0) (k * dx1) (k * du0) (k * du1) (k * z) (k * wl) os = k * propWavelength S0 S1 dx0 dx1 du0 du1 z wl os :=
+  fft_scale_invariant min_real k dx0 dx1 du0 du1 z wl os S0 S1 hk
 
+theorem propagateFft_scale_covariant_real (fs : List (Fld ℂ)) (ht : Bool) (W0 W1 : Int) (k dx0 dx1 du0 du1 wl z : ℝ) (os : Int)
+    (shape : Option (Int × Int)) (scratch : Option (Arr ℂ)) (hk : 0 < k) :
+    (∀ lam S0 S1 so g, propagateFft 1 fs ht W0 W1 dx0 dx1 du0 du1 wl z os shape scratch = FftOut.ok lam S0 S1 so g →
+      propagateFft 1 fs ht W0 W1 (k * dx0) (k * dx1) (k * du0) (k * du1) (k * wl) (k * z) os shape scratch = FftOut.ok (k * lam) S0 S1 so g) ∧
+    (propagateFft 1 fs ht W0 W1 dx0 dx1 du0 du1 wl z os shape scratch = FftOut.valueError →
+      propagateFft 1 fs ht W0 W1 (k * dx0) (k * dx1) (k * du0) (k * du1) (k * wl) (k * z) os shape scratch = FftOut.valueError) ∧
+    (propagateFft 1 fs ht W0 W1 dx0 dx1 du0 du1 wl z os shape scratch = FftOut.notImplemented →
+      propagateFft 1 fs ht W0 W1 (k * dx0) (k * dx1) (k * du0) (k * du1) (k * wl) (k * z) os shape scratch = FftOut.notImplemented) :=
+  propagateFft_scale_covariant min_real 1 fs ht W0 W1 k dx0 dx1 du0 du1 wl z os shape scratch hk
+
+/-- **A buffer advertised for a list of wavelengths suffices for each of them, at ℝ, unconditionally**: `hmono` of
+`scratch_shape_monotone` is discharged by `roundEven_real_mono`. -/
+theorem scratch_shape_monotone_real (wl wl' dx0 dx1 du0 du1 z : ℝ) (os : Int) (hwl : wl ≤ wl')
+    (hpos : 0 < dx0 ∧ 0 < dx1 ∧ 0 < du0 ∧ 0 < du1 ∧ 0 < z ∧ 0 < wl) (hos : 0 < os) :
+    (fftShape dx0 dx1 du0 du1 z wl os).1 ≤ (scratchShape wl' dx0 dx1 du0 du1 z os).1 ∧
+    (fftShape dx0 dx1 du0 du1 z wl os).2 ≤ (scratchShape wl' dx0 dx1 du0 du1 z os).2 :=
+  scratch_shape_monotone (fun _ => rfl) roundEven_real_mono wl wl' dx0 dx1 du0 du1 z os hwl hpos hos
+
+/-- **Refusal of too large shapes at ℝ** (instances of `refuses_larger_shape` / `accepted_shape_fits` with the real `>`) -/
+theorem shape_guard_real (sh S : Int × Int) (os : Int) (hos : 0 < os) :
+    shapeTooBig (R := ℝ) (some sh) S os = true ↔ sh.1 * os > S.1 ∨ sh.2 * os > S.2 :=
+  shapeTooBig_iff (fun _ => rfl) gt_real sh S os hos
+
+/-- non-vacuity of `fft_eq_propagate_dft`: a 2x2 field on a 4x4 grid (`dx = du = 1/2`, `z = lambda = 1`, `os = 1`) is accepted -/
 example : ∃ lam g, propagateFft (K := ℂ) (R := ℝ) 1 [⟨⟨2, 2, fun i j => (i + 2 * j + 1 : ℤ)⟩, 0, 0⟩] false 2 2 (1/2) (1/2) (1/2) (1/2) 1 1 1
     none none = FftOut.ok lam 4 4 (4, 4) g := by
-  simp only [propagateFft, Bool.false_eq_true, if_false, shapeTooBig, scratchTooSmall, fftShapeOut, Gen.fftShapeOutNone, fftShape_example,
+  simp only [propagateFft, Bool.false_eq_true, if_false, shapeTooBig, scratchTooSmall, fftShapeOut, Gen.fftShapeOutNone, fftShape_half_example,
     FftOut.ok.injEq, true_and]
   exact ⟨_, _, rfl, rfl⟩
+
+/-- non-vacuity beyond the trivial call: explicit `shape=(1, 2)`, a dirty 5x9 scratch buffer and per-axis sampling whose axes agree on the
+wavelength (`du = (1/2, 1/4)`: grid 4 x 8, `S0·dx0·du0 = S1·dx1·du1 = 1` while `dx0·du0 ≠ dx1·du1`) — the call is accepted, so `h`, the
+second branch of `hcons`, `hW`, `hfit`, `hpos`, `hso` of `fft_eq_propagate_dft` hold together -/
+example : (∃ lam g, propagateFft (K := ℂ) (R := ℝ) 1 [⟨⟨2, 2, fun i j => (i + 2 * j + 1 : ℤ)⟩, 0, 0⟩] false 2 2 (1/2) (1/2) (1/2) (1/4) 1 1 1
+      (some (1, 2)) (some ⟨5, 9, fun _ _ => 3⟩) = FftOut.ok lam 4 8 (1, 2) g) ∧
+    ((4 : ℤ) : ℝ) * ((1/2 : ℝ) * (1/2)) = ((8 : ℤ) : ℝ) * ((1/2 : ℝ) * (1/4)) ∧ (1/2 : ℝ) * (1/2) ≠ (1/2) * (1/4) ∧
+    (⟨⟨2, 2, fun i j => ((i + 2 * j + 1 : ℤ) : ℂ)⟩, 0, 0⟩ : Fld ℂ).within 2 2 := by
+  have hb : shapeTooBig (R := ℝ) (some (1, 2)) (4, 8) 1 = false := by
+    rw [← Bool.not_eq_true, shape_guard_real _ _ _ (by decide)]; decide
+  have hs : scratchTooSmall (some (⟨5, 9, fun _ _ => 3⟩ : Arr ℂ)) (4, 8) = false := by
+    rw [scratchTooSmall_false_iff]; decide
+  refine ⟨?_, by norm_num, by norm_num, ?_⟩
+  · simp only [propagateFft, Bool.false_eq_true, if_false, fftShape_aniso_example, hb, hs, fftShapeOut_some, FftOut.ok.injEq, true_and]
+    exact ⟨_, _, rfl, by decide, rfl⟩
+  · simp only [Fld.within, Fld.extent, arrayExtent_eq]; decide
 end complex
 
 /-! ## Known finding (open): anisotropic sampling
